@@ -176,8 +176,9 @@ class CFGBuilder(AstVisitor[BB | None]):
         # so that they are only evaluated once.
         subscripts = []
         target = node.target
-        while isinstance(target, ast.Subscript):
-            subscripts.append(target)
+        while isinstance(target, ast.Subscript | ast.Attribute):
+            if isinstance(target, ast.Subscript):
+                subscripts.append(target)
             target = target.value
         for subscript in reversed(subscripts):
             if not isinstance(subscript.slice, ast.Name | ast.Constant):
